@@ -32,6 +32,11 @@ def law(cls, variant=""):
                               ("rejected=>nothing-changes", f"implies(not result, {SAME})"),
                               ("cancel-flag-untouched", "self._cancelled == old(self._cancelled)")],
                      modifies={"_forced": ["self"]})
+    if cls == "NodeWithCondition":
+        # a Watch / Alarm whose condition has fired is running its body: the interpreter looks at `cancelled` / `forced` only before
+        # and while awaiting activation, so a request accepted after activation could not take effect ("never runs its body")
+        cancel.ensures.append(("an-activated-watch-is-not-cancellable", f"implies(old(self.activated), not result and {SAME})"))
+        force.ensures.append(("an-activated-watch-is-not-forcible", f"implies(old(self.activated), not result and {SAME})"))
     return [cancel, force]
 
 
@@ -106,3 +111,32 @@ CLAUSES = {"requests for items not offered as cancellable / forcible are rejecte
            "a cancelled timed Pause or Hold ends at once": "Pause.cancel / Hold.cancel postconditions (proved, shared with C06)",
            "a cancelled Watch never runs its body; forced Watch/Wait/threshold proceed; a cancelled UOD command is finalized": "NOT covered (interpreter generators / CommandManager)"}
 EXPLANATION = "Partial claim: the cancel/force mechanism at node and tracking level and the timed Pause/Hold cancel, all unbounded; command-item and interpreter clauses are not covered."
+
+
+def replay(obligation, witness):
+    """Native oracle for the node-level laws: real WatchNode / AlarmNode objects in every flag combination."""
+    import itertools
+    import openpectus.lang.model.ast as p
+    for cls in (p.WatchNode, p.AlarmNode):
+        for cancelled, forced, activated, completed in itertools.product((False, True), repeat=4):
+            for op in ("cancel", "force"):
+                n = cls()
+                n._cancelled, n._forced, n.activated, n.completed = cancelled, forced, activated, completed
+                before = (n._cancelled, n._forced)
+                offered = n.cancellable if op == "cancel" else n.forcible
+                r = getattr(n, op)()
+                after = (n._cancelled, n._forced)
+                bad = None
+                if r != offered:
+                    bad = "accepted although not offered / refused although offered"
+                elif activated and (r or after != before):
+                    bad = f"{op} accepted on a node whose body already started (activated)"
+                elif not r and after != before:
+                    bad = "a rejected request changed the node"
+                if bad:
+                    return {"confirmed": True, "violated": True, "class": cls.__name__, "operation": op, "what": bad,
+                            "flags": {"cancelled": cancelled, "forced": forced, "activated": activated, "completed": completed}, "result": r}
+    return {"confirmed": False}
+
+
+REPLAY_WITHOUT_WITNESS = True
